@@ -226,6 +226,34 @@ pub fn c18(tier: &str) -> i32 {
             t
         })
         .reduce(Tally::default, Tally::merge);
+    // thorough: every byte string of length 3 (16.7 M) through choose_index / gen_range on a reduced argument grid
+    let mut t3 = Tally::default();
+    if thorough {
+        let small: [usize; 7] = [1, 2, 3, 95, 256, 257, 65537];
+        t3 = (0..=255u8)
+            .into_par_iter()
+            .fold(Tally::default, |mut t, a| {
+                for b in 0..=255u8 {
+                    for c in 0..=255u8 {
+                        let e = Ent::Bytes(vec![a, b, c]);
+                        t.states += 1;
+                        for &n in &small {
+                            t.calls += 2;
+                            match with_source(&e, |s| (s.choose_index(n), s.gen_range(n / 2, n))) {
+                                Ok((i, r)) => {
+                                    if i >= n || !((n / 2 >= n && r == n / 2) || (n / 2 <= r && r < n)) {
+                                        t.bad("len3:range", format!("choose_index({n})={i} / gen_range({},{n})={r} on {}", n / 2, e.describe()), json!({"kind":"adapter","entropy":e.to_json()}));
+                                    }
+                                }
+                                Err(p) => t.bad("len3:panic", format!("panic on {}: {p}", e.describe()), json!({"kind":"adapter","entropy":e.to_json()})),
+                            }
+                        }
+                    }
+                }
+                t
+            })
+            .reduce(Tally::default, Tally::merge);
+    }
     // exhausted input: the fallback is fixed (the same every time, whatever was consumed before)
     let mut t2 = Tally::default();
     let empty = Ent::Bytes(vec![]);
@@ -243,7 +271,9 @@ pub fn c18(tier: &str) -> i32 {
             t2.bad("exhausted:fallback-not-fixed", format!("after draining {} the fallback is {after:?}, on empty input {fallback:?}", lexer::hex(&pre)), json!({"kind":"adapter","entropy":e.to_json(),"call":"fallback"}));
         }
     }
-    let tally = tally.merge(t2);
+    let n_len3 = t3.states;
+    let tally = tally.merge(t2).merge(t3);
+    rep.set("byte_strings_len_3_exhaustive", json!(n_len3));
     rep.states = tally.states;
     rep.transitions = tally.calls;
     for (c, m, r) in &tally.bad {
@@ -349,6 +379,18 @@ fn mutator_ents(thorough: bool) -> Vec<Ent> {
                 v.push(Ent::Bytes(x.clone()));
                 x.extend_from_slice(&[c, a, 0x19, 0x61, 0x7a, 0xff, 0x00, 0x33, 0x10, 0x05]);
                 v.push(Ent::Bytes(x));
+            }
+        }
+    }
+    if thorough {
+        // gate + every 2-byte value string + a third byte from the edge alphabet (third value draws)
+        for a in 0..=255u8 {
+            for b in 0..=255u8 {
+                for c in EDGE_BYTES {
+                    let mut x = gates[0].to_vec();
+                    x.extend_from_slice(&[a, b, c]);
+                    v.push(Ent::Bytes(x));
+                }
             }
         }
     }
